@@ -1288,6 +1288,54 @@ def _gated_stats(case, tr) -> dict:
     return out
 
 
+def _multi_stats(case, tr) -> dict:
+    """`multi` / `notify` families: how many result / removal events went to >= 2 extra listeners, how many listener
+    calls really suspended (returned in a later op or after time passed), and what the schedule did while a result or
+    a removal was being handed from listener to listener"""
+    out = {'removal-to-several-listeners': 0, 'result-to-several-listeners': 0, 'listener-suspended-across-ops': 0,
+           'listener-suspended-in-loop': 0, 'listener-raised': 0, 'remove': 0, 'reply': 0, 'stop': 0,
+           'wishlist-cancelled': 0, 'time-passed': 0, 'timer-op': 0, 'resume-told-next': 0, 'search-again': 0}
+    L = tr['tail'].get('lis')
+    specs = case['cfg'].get('lis') or {}
+    if not L:
+        return out
+    for cls, key in (('X', 'removal-to-several-listeners'), ('R', 'result-to-several-listeners')):
+        if len(specs.get(cls, [])) >= 2:
+            out[key] += sum(1 for p in L['prim'] if p[0] == cls)
+    busy_ops = set()                      # ops during which some R/X listener was inside its call at op start
+    for c, idx, t, rid, aux, how, opi in L['exit']:
+        ent = next((e for e in L['enter'] if e[0] == c and e[1] == idx and e[3] == rid and e[4] == aux), None)
+        if ent is None:
+            continue
+        if how == 'raised':
+            out['listener-raised'] += 1
+        if c in ('R', 'X'):
+            if opi > ent[5]:
+                out['listener-suspended-across-ops'] += 1
+                busy_ops.update(range(ent[5] + 1, opi + 1))
+            elif specs[c][idx][0] in ('yield', 'nap', 'research'):
+                out['listener-suspended-in-loop'] += 1
+    for i, (op, st) in enumerate(zip(case['ops'], tr['steps'])):
+        if op[0] == 'resume' and st.get('told'):
+            out['resume-told-next'] += 1
+        if i not in busy_ops:
+            continue
+        if op[0] in ('remove', 'removeobj'):
+            out['remove'] += 1
+        elif op[0] in ('reply', 'greply'):
+            out['reply'] += 1
+        elif op[0] == 'stop':
+            out['stop'] += 1
+        elif op[0] in ('wlmsg', 'wlclose'):
+            out['wishlist-cancelled'] += 1
+        elif op[0] in ('tcancel', 'tresched'):
+            out['timer-op'] += 1
+        elif op[0] in ('sleep', 'jump') and op[1] > 0:
+            out['time-passed'] += 1
+    out['search-again'] = sum(1 for e in L['enter'] if e[0] == 'X' and specs['X'][e[1]][0] == 'research')
+    return out
+
+
 class C18(Property):
     id = 'C18'
     props_module = 'AioslskVerif.Props.C18'
@@ -1374,7 +1422,7 @@ class C18(Property):
                 res.count('op:' + op[0])
             for st in tr['steps']:
                 for e in st['events']:
-                    res.count('event:' + {'S': 'sent', 'X': 'timeout-removed', 'R': 'result', 'U': 'removed-by-sent-listener'}[e[1]])
+                    res.count('event:' + {'S': 'sent', 'X': 'timeout-removed', 'R': 'result', 'U': 'removed-by-a-listener'}[e[1]])
                 if st['ret']:
                     res.count('ret:' + st['ret'])
                 if st['clobber']:
@@ -1383,6 +1431,23 @@ class C18(Property):
             res.count('timeout:wishlist=' + ('server' if c['cfg']['wt'] < 0 else 'off' if c['cfg']['wt'] == 0 else 'own'))
             if c['cfg']['initial'] != 1:
                 res.count('generator-near-wrap')
+            if c['kind'] in ('multi', 'notify'):
+                fam = c['kind']
+                g = _multi_stats(c, tr)
+                for key, v in g.items():
+                    if v:
+                        res.count(f'{fam}:' + key, v)
+                for cls, sp in (c['cfg'].get('lis') or {}).items():
+                    for x in sp:
+                        res.count(f'{fam}-listener:{cls}:{x[0]}')
+                if (g['listener-suspended-across-ops'] or g['listener-suspended-in-loop']) and \
+                        (g['removal-to-several-listeners'] or g['result-to-several-listeners'] or g['resume-told-next']):
+                    res.nontrivial_keys.add(common.sha([c['cfg'], c['ops']]))
+                    res.count(f'{fam}-nontrivial')
+            if c['kind'] == 'multi':
+                res.count('multi:' + c.get('what', ''))
+                res.violations += _monitor(c, tr)
+                continue
             if c['kind'] in MONITOR_ONLY:
                 fam = c['kind']
                 res.count(f'{fam}:' + c.get('what', ''))
@@ -1395,7 +1460,7 @@ class C18(Property):
                     res.count(f'{fam}-nontrivial')
                 res.violations += _monitor(c, tr)
                 continue
-            if _nontrivial(c, tr):
+            if c['kind'] != 'notify' and _nontrivial(c, tr):
                 res.nontrivial_keys.add(common.sha([c['cfg'], c['ops']]))
             il = _impl_lines(tr)
             if model is not None:
@@ -1415,6 +1480,9 @@ class C18(Property):
                         f'line #{k} (op {c["ops"][k - 1] if 0 < k <= len(c["ops"]) else "new/end"})'))
             res.violations += _monitor(c, tr)
             if len(res.samples) < 3 and c['kind'] == 'instant' and _nontrivial(c, tr):
+                res.samples.append({'case': c, 'impl': il})
+            if c['kind'] == 'notify' and not any(s_['case']['kind'] == 'notify' for s_ in res.samples) and \
+                    _multi_stats(c, tr)['resume-told-next'] >= 2 and len(c['ops']) <= 14:
                 res.samples.append({'case': c, 'impl': il})
         return res
 
